@@ -1,6 +1,11 @@
-(** C10 - Indexing, slicing and element updates follow one position model per container. (first stage) *)
+(** C10 - Indexing, slicing and element updates follow one position model per container.
+    Model: Val/Index.v (abs_index, skip_take, skip_take_chars, index_opt, vrange) and the update primitives map_index / map_range
+    of Core/Run.v (jaq-json/src/lib.rs).  Proved: the position arithmetic (negative positions, clipping, open bounds), and for
+    arrays, byte strings, text strings and objects that an update applies its filter to exactly what the read at the same
+    position yields, writes the result to exactly that position (replace, remove, splice, append) and keeps every other
+    element and the order of keys; outside or on null it refuses, or skips under `?`. *)
 From Coq Require Import ZArith Bool List Lia.
-From JaqV Require Import Val.Index.
+From JaqV Require Import Base.Bytes Base.Stream Val.Num Val.Val Val.Err Val.Index Core.Run Proofs.SafeLaws Proofs.UpdateLaws.
 Import ListNotations.
 Local Open Scope Z_scope.
 
@@ -50,3 +55,142 @@ Proof.
   rewrite Z.sub_0_r, Z.max_r by lia. rewrite Nat2Z.id. cbn [Z.to_nat skipn]. apply firstn_all.
 Qed.
 Print Assumptions open_slice_is_identity.
+
+(** ** updates *)
+(** `.[i] |= f` inside an array: f runs on the element `.[i]` reads; its first output replaces exactly that element, no output
+    removes exactly it *)
+Theorem array_update_inside : forall a i p k opt f,
+  val_as_pos_usize i = Ok p -> abs_index p (Z.of_nat (length a)) = Some k ->
+  exists x, nth_error a (Z.to_nat k) = Some x
+    /\ index_opt (Arr a) i = Ok (Some x)
+    /\ map_index (Arr a) i opt f
+       = match first (f x) with
+         | FSome y => sone (Arr (replace_at (Z.to_nat k) y a))
+         | FNone => sone (Arr (remove_at (Z.to_nat k) a))
+         | FFail t => fin_str t
+         end.
+Proof. exact UpdateLaws.arr_index_inside. Qed.
+Print Assumptions array_update_inside.
+
+(** replacing and removing one position leave all others as they were *)
+Theorem replace_remove_frame : forall A k (y : A) l,
+  length (replace_at k y l) = length l
+  /\ ((k < length l)%nat -> nth_error (replace_at k y l) k = Some y)
+  /\ (forall j, j <> k -> nth_error (replace_at k y l) j = nth_error l j)
+  /\ ((k < length l)%nat -> S (length (remove_at k l)) = length l)
+  /\ (forall j, (j < k)%nat -> nth_error (remove_at k l) j = nth_error l j)
+  /\ (forall j, (k <= j)%nat -> nth_error (remove_at k l) j = nth_error l (S j)).
+Proof.
+  intros A k y l. repeat split.
+  - apply UpdateLaws.replace_at_length.
+  - apply UpdateLaws.replace_at_same.
+  - intros j Hj. apply UpdateLaws.replace_at_other. exact Hj.
+  - apply UpdateLaws.remove_at_length.
+  - intros j Hj. apply UpdateLaws.remove_at_before. exact Hj.
+  - intros j Hj. apply UpdateLaws.remove_at_after. exact Hj.
+Qed.
+Print Assumptions replace_remove_frame.
+
+(** outside an array: reading yields null, the update is refused, or skipped under `?` *)
+Theorem array_update_outside : forall a i p f,
+  val_as_pos_usize i = Ok p -> abs_index p (Z.of_nat (length a)) = None ->
+  vindex (Arr a) i = Ok Null
+  /\ map_index (Arr a) i false f = serr (EOob i)
+  /\ map_index (Arr a) i true f = sone (Arr a).
+Proof. exact UpdateLaws.arr_index_outside. Qed.
+Print Assumptions array_update_outside.
+
+(** `.[i:j] |= f` on arrays: the window that is read is the window that is replaced; what lies before and after it stays *)
+Theorem array_slice_update : forall a r ri opt f s t,
+  range_int r = Ok ri -> skip_take ri (Z.of_nat (length a)) = (s, t) ->
+  vrange (Arr a) r = Ok (Arr (slice a s t))
+  /\ map_range (Arr a) r opt f
+     = match first (f (Arr (slice a s t))) with
+       | FSome (Arr y) => sone (Arr (splice a s t y))
+       | FSome y => serr (ETyp y TArr)
+       | FNone => sone (Arr (splice a s t []))
+       | FFail u => fin_str u
+       end
+  /\ (0 <= s /\ 0 <= t /\ s + t <= Z.of_nat (length a))
+  /\ forall y, firstn (Z.to_nat s) (splice a s t y) = firstn (Z.to_nat s) a
+               /\ skipn (Z.to_nat s + length y) (splice a s t y) = skipn (Z.to_nat (s + t)) a
+               /\ slice (splice a s t y) s (Z.of_nat (length y)) = y
+               /\ splice a s t (slice a s t) = a.
+Proof. exact UpdateLaws.arr_slice_update. Qed.
+Print Assumptions array_slice_update.
+
+(** text strings: positions are characters, the window lies on character boundaries, the update replaces exactly its bytes *)
+Theorem text_slice_update : forall b r ri opt f s t,
+  range_int r = Ok ri -> skip_take_chars ri b = (s, t) ->
+  vrange (TStr b) r = Ok (TStr (slice b s t))
+  /\ map_range (TStr b) r opt f
+     = match first (f (TStr (slice b s t))) with
+       | FSome (TStr y) => sone (TStr (splice b s t y))
+       | FSome y => serr (ETyp y TStrT)
+       | FNone => sone (TStr (splice b s t []))
+       | FFail u => fin_str u
+       end
+  /\ boundary b s /\ (t = 0 \/ boundary b (s + t))
+  /\ (0 < t -> forall y, firstn (Z.to_nat s) (splice b s t y) = firstn (Z.to_nat s) b
+               /\ skipn (Z.to_nat s + length y) (splice b s t y) = skipn (Z.to_nat (s + t)) b
+               /\ slice (splice b s t y) s (Z.of_nat (length y)) = y).
+Proof. exact UpdateLaws.text_slice_update. Qed.
+Print Assumptions text_slice_update.
+
+(** byte strings: positions are bytes *)
+Theorem bytes_slice_update : forall b r ri opt f s t,
+  range_int r = Ok ri -> skip_take ri (Z.of_nat (length b)) = (s, t) ->
+  vrange (BStr b) r = Ok (BStr (slice b s t))
+  /\ map_range (BStr b) r opt f
+     = match first (f (BStr (slice b s t))) with
+       | FSome (BStr y) => sone (BStr (splice b s t y))
+       | FSome y => serr (ETyp y TStrT)
+       | FNone => sone (BStr (splice b s t []))
+       | FFail u => fin_str u
+       end
+  /\ forall y, firstn (Z.to_nat s) (splice b s t y) = firstn (Z.to_nat s) b
+               /\ skipn (Z.to_nat s + length y) (splice b s t y) = skipn (Z.to_nat (s + t)) b
+               /\ slice (splice b s t y) s (Z.of_nat (length y)) = y.
+Proof. exact UpdateLaws.bytes_slice_update. Qed.
+Print Assumptions bytes_slice_update.
+
+(** objects, any value as key: reading probes the entry the update finds ... *)
+Theorem object_read_position : forall o k, (length o <> 1)%nat ->
+  index_opt (Obj o) k = Ok (match find_index o k 0 with Some i => option_map snd (nth_error o i) | None => None end).
+Proof. exact UpdateLaws.obj_read. Qed.
+Print Assumptions object_read_position.
+
+(** ... a present key keeps its place, the keys keep their order, other entries are untouched ... *)
+Theorem object_update_present : forall o k i opt f,
+  find_index o k 0 = Some i ->
+  exists k' x, nth_error o i = Some (k', x)
+    /\ map_index (Obj o) k opt f
+       = match first (f x) with
+         | FSome y => sone (Obj (replace_at i (k', y) o))
+         | FNone => sone (Obj (swap_remove_at i o))
+         | FFail t => fin_str t
+         end
+    /\ forall y, map fst (replace_at i (k', y) o) = map fst o
+                 /\ nth_error (replace_at i (k', y) o) i = Some (k', y)
+                 /\ forall j, j <> i -> nth_error (replace_at i (k', y) o) j = nth_error o j.
+Proof. exact UpdateLaws.obj_update_present. Qed.
+Print Assumptions object_update_present.
+
+(** ... an absent key is appended with the first output of the filter on null *)
+Theorem object_update_absent : forall o k opt f,
+  find_index o k 0 = None ->
+  map_index (Obj o) k opt f
+  = match first (f Null) with
+    | FSome y => sone (Obj (o ++ [(k, y)]))
+    | FNone => sone (Obj o)
+    | FFail t => fin_str t
+    end.
+Proof. exact UpdateLaws.obj_update_absent. Qed.
+Print Assumptions object_update_absent.
+
+(** null is no container for updates *)
+Theorem update_refuses_null : forall i f,
+  map_index Null i false f = serr (ETyp Null TIter) /\ map_index Null i true f = sone Null
+  /\ forall r, map_range Null r false f = serr (ETyp Null TArr) /\ map_range Null r true f = sone Null.
+Proof. exact UpdateLaws.update_refuses_null. Qed.
+Print Assumptions update_refuses_null.
